@@ -15,7 +15,12 @@ import scipp as sc
 from scippneutron.chopper import filtering as _filtering
 from scippneutron.chopper.filtering import collapse_plateaus, filter_in_phase, find_plateaus
 
+from fractions import Fraction
+
+from mc import modstate
 from ref import series
+
+modstate.snapshot(_filtering)  # module state right after import, before the harness touches anything
 
 ID = 'C19'
 LEVEL = 'model_checking'
@@ -25,7 +30,15 @@ RULE = (
     '(n variants), min_n_points = 1..n, coordinate dtype float64 / int64 / datetime64[s]; values are dyadic so every slope '
     'and the comparison with atol are exact in float64. long: 5 constructed 500-point series x 3 dtypes x 9 min_n_points. '
     'in-phase: 4 references x 2 rtol x 23 ratios x 9 deviations as one array and as single-element arrays, plus integer '
-    'dtype tables. A find_plateaus call is non-trivial when it returns; distinct = distinct (series, min_n_points, dtype)'
+    'dtype tables. shift: every 2..4-point series (float data with dyadic steps / int64 data with steps {0, +-2, +-3, 16}, atol 2) '
+    'with the int64 coordinate, the int64 data or both shifted by 0, +-2^31, +-(2^53+1), +-1.7e18, and datetime64[ns] stamps '
+    'every 100/200 ns at 1970 and around 2026-01-01 +- the same offsets; reference on exact Python ints, and the plateaus '
+    'must equal those of the unshifted signal. history: 11 coordinate/data/tolerance unit configurations (float s/ms/us/ns, '
+    'int64 ms, datetime64 ns/ms/us, data Hz/kHz, atol Hz/s, kHz/s, Hz/ms; decisions a factor 4 from the tolerance, '
+    'reference in exact SI rationals), each alone and every ordered pair (thorough: triple) run in one process after a '
+    'module-state reset, each call (find_plateaus incl. the drift guard + collapse_plateaus) compared with the reference '
+    'and with the same call in a fresh module state. '
+    'A find_plateaus call is non-trivial when it returns; distinct = distinct (series, min_n_points, dtype)'
 )
 ASSUMPTIONS = [
     'scipp (binning, slicing, comparison) and numpy are the trusted base',
@@ -36,16 +49,23 @@ ASSUMPTIONS = [
     'in-phase: judged only where the reference-relative and the target-relative reading of "relative tolerance" agree with '
     'a margin of 9/8; |f/ref| and |ref/f| below 1/(2 rtol)',
     'collapse: only containment of the points in [lo, hi) and the mean are demanded, not tightness of the interval',
+    'shift / history: a guard RuntimeError that appears or disappears with the offset / history is counted, not judged; '
+    'module state of chopper.filtering is reset with mc/modstate.py before and after every history',
 ]
 BOUND = {
-    'quick': 'all series of 2..5 points (7 464 series x 3 coordinate dtypes, 109 656 find_plateaus calls incl. all min_n_points); long series; in-phase tables',
-    'thorough': 'all series of 2..6 points: 6-point series with every position of the long coordinate step for float64, positions none / third for int64 and datetime64; same long series and tables',
+    'quick': 'all series of 2..5 points (7 464 series x 3 coordinate dtypes, 109 656 find_plateaus calls incl. all min_n_points); long series; in-phase tables; '
+             'shift: 4 modes x 7 offsets x all series of 2..4 points (4-point: uniform coordinate steps only); history: 11 unit configurations, all 121 ordered pairs',
+    'thorough': 'all series of 2..6 points: 6-point series with every position of the long coordinate step for float64, positions none / third for int64 and datetime64; same long series and tables; '
+                'shift with every position of the long coordinate step; history: all 1 331 ordered triples',
 }
 REQUIRED_CLASSES = [
     'returned', 'guard_fired', 'plateaus_0', 'plateaus_1', 'plateaus_2', 'plateaus_3plus', 'size_filter_dropped_run',
     'step_at_tolerance_inside', 'step_just_above_splits', 'long_dx_rescues_step', 'dtype_float64', 'dtype_int64',
     'dtype_datetime64', 'collapse_ok', 'collapse_empty', 'min_n_as_variable', 'long_series', 'real_uuid_label',
     'inphase_keep', 'inphase_drop', 'inphase_dontcare', 'inphase_empty_result', 'inphase_all_kept', 'inphase_int_dtype',
+    'shift_mode_int_coord', 'shift_mode_int_data', 'shift_mode_int_both', 'shift_mode_datetime_ns', 'shift_invariant',
+    'offset_above_2_53', 'offset_negative', 'history_len_1', 'history_len_2', 'history_independent',
+    'history_same_atol_unit_other_slope_unit',
     'inphase_negative', 'inphase_zero', 'coord_first_step_equals_mean_step', 'coord_all_positive', 'coord_all_negative', 'coord_reaches_or_crosses_zero',
 ]
 CHUNK = 4
@@ -113,6 +133,26 @@ def cases(tier):
     for c in base:
         for x0 in (-2, -(c['n'] + 4)):
             out.append({**c, 'x0': x0})
+    # integer / datetime coordinates and integer data far from zero: the same signals shifted by large offsets
+    for mode in SHIFT_MODES:
+        for n in (2, 3, 4):
+            for dxpos in range(-1, n - 1):
+                if n == 4 and dxpos != -1 and tier == 'quick':
+                    continue
+                if n < 4:
+                    out.append({'kind': 'shift', 'mode': mode, 'n': n, 'dxpos': dxpos, 'head': []})
+                else:
+                    for h in range(6):
+                        out.append({'kind': 'shift', 'mode': mode, 'n': n, 'dxpos': dxpos, 'head': [h]})
+    # unit combinations of coordinate / data / tolerance, alone and as call histories in one process
+    nu = len(UNIT_CONFIGS)
+    for i in range(nu):
+        out.append({'kind': 'history', 'seq': [i]})
+    for seq in itertools.product(range(nu), repeat=2):
+        out.append({'kind': 'history', 'seq': list(seq)})
+    if tier == 'thorough':
+        for seq in itertools.product(range(nu), repeat=3):
+            out.append({'kind': 'history', 'seq': list(seq)})
     for name in ('alternating', 'barely_split', 'drift', 'variances', 'staircase'):
         for dt in DTYPES:
             out.append({'kind': 'long', 'series': name, 'dtype': dt})
@@ -154,14 +194,19 @@ def coord_ints(var):
 _ATOL = {}
 
 
-def judge_find(rec, da, xs, ys, atol_value, min_n, model_runs, *, sub, min_n_arg=None, site='find_plateaus'):
-    """One find_plateaus call + collapse, judged against the model.  Returns 'returned' | 'guard'."""
+def judge_find(rec, da, xs, ys, atol_value, min_n, model_runs, *, sub, min_n_arg=None, site='find_plateaus', atol_unit='Hz/s', out=None):
+    """One find_plateaus call + collapse, judged against the model.  Returns 'returned' | 'guard'.
+
+    ``out`` (a dict) receives what was observed: 'outcome', 'members' (point indices per plateau), 'collapsed'.
+    """
     rec.transitions += 1
-    # one tolerance Variable per value, reused by every call of this worker (as a caller would), given in exactly the
-    # unit of the slope so that an internal `to(unit=..., copy=False)` is the identity
-    atol = _ATOL.get(atol_value)
+    if out is not None:
+        out.update(outcome='guard', members=None, collapsed=None)
+    # one tolerance Variable per (value, unit), reused by every call of this worker (as a caller would); by default given
+    # in exactly the unit of the slope so that an internal `to(unit=..., copy=False)` is the identity
+    atol = _ATOL.get((atol_value, atol_unit))
     if atol is None:
-        atol = _ATOL[atol_value] = sc.scalar(atol_value, unit='Hz/s')
+        atol = _ATOL[(atol_value, atol_unit)] = sc.scalar(atol_value, unit=atol_unit)
     try:
         p = find_plateaus(da, atol=atol, min_n_points=min_n if min_n_arg is None else min_n_arg)
     except RuntimeError as e:
@@ -169,9 +214,9 @@ def judge_find(rec, da, xs, ys, atol_value, min_n, model_runs, *, sub, min_n_arg
             raise
         p = None
     finally:
-        if atol.value != atol_value or atol.unit != sc.Unit('Hz/s'):
-            rec.viol(site, 'tolerance_argument_modified', f'the caller\'s atol was {atol_value} Hz/s before the call and is {atol.value} {atol.unit} after it', **sub)
-            _ATOL[atol_value] = sc.scalar(atol_value, unit='Hz/s')
+        if atol.value != atol_value or atol.unit != sc.Unit(atol_unit):
+            rec.viol(site, 'tolerance_argument_modified', f'the caller\'s atol was {atol_value} {atol_unit} before the call and is {atol.value} {atol.unit} after it', **sub)
+            _ATOL[(atol_value, atol_unit)] = sc.scalar(atol_value, unit=atol_unit)
     if p is None:
         rec.cls('guard_fired')
         rec.observe('guard')
@@ -194,6 +239,8 @@ def judge_find(rec, da, xs, ys, atol_value, min_n, model_runs, *, sub, min_n_arg
     for b0, b1 in zip(begin, end, strict=True):
         got.append([int(i) for i in bidx[b0:b1]])
     rec.observe(got)
+    if out is not None:
+        out.update(outcome='returned', members=got)
     want_members = [list(range(a, b)) for a, b in want]
     if got != want_members:
         kind = 'wrong_plateaus'
@@ -214,7 +261,7 @@ def judge_find(rec, da, xs, ys, atol_value, min_n, model_runs, *, sub, min_n_arg
     if buf.unit != da.unit or buf.coords['time'].unit != da.coords['time'].unit or buf.coords['time'].dtype != da.coords['time'].dtype:
         rec.viol(site, 'unit_or_dtype_changed', f'{buf.unit} {buf.coords["time"].unit} {buf.coords["time"].dtype}', **sub)
         ok = False
-    yv, xv = np.asarray(ys, dtype='float64'), coord_ints(da.coords['time'])
+    yv, xv = np.asarray(ys, dtype=da.values.dtype), coord_ints(da.coords['time'])
     bx = coord_ints(buf.coords['time'])
     for (a, b), b0, b1 in zip(want, begin, end, strict=True):
         if buf.values[b0:b1].tobytes() != yv[a:b].tobytes() or bx[b0:b1].tobytes() != xv[a:b].tobytes():
@@ -243,6 +290,8 @@ def judge_find(rec, da, xs, ys, atol_value, min_n, model_runs, *, sub, min_n_arg
         return 'returned'
     edges = coord_ints(tc.transpose(['plateau', 'time']).copy())
     rec.observe(col.values.tobytes(), np.asarray(edges).tobytes())
+    if out is not None:
+        out['collapsed'] = (col.values.tobytes(), np.asarray(edges).tobytes())
     tight = True
     for i, m in enumerate(model):
         lo, hi = series.frac(edges[i][0]), series.frac(edges[i][1])
@@ -376,6 +425,182 @@ def run_long(case, rec):
 
 
 # ---------------------------------------------------------------------------------------
+# shift invariance: integer / datetime coordinates and integer data at large magnitudes
+
+EPOCH_2026_NS = 1767225600 * 10**9  # 2026-01-01T00:00:00 in ns since 1970 (about 1.77e18, float64 spacing 256)
+OFFSETS = (0, 2**31, 2**53 + 1, 17 * 10**17, -(2**31), -(2**53 + 1), -17 * 10**17)
+SHIFT_MODES = ('int_coord', 'int_data', 'int_both', 'datetime_ns')
+INT_ATOL = 2.0
+INT_STEPS = (0, 2, -2, 3, -3, 16)  # integer data: at the tolerance, just above it (3/1 > 2 but 3/2 < 2), far above
+
+
+def shift_series(mode, n, dxs, codes, offset):
+    """(da, xs, ys, atol_value, atol_unit): exact Python ints / dyadic floats; all differences exactly representable."""
+    idx = sc.arange('time', n, unit=None)
+    if mode == 'datetime_ns':
+        # time stamps in ns sampled every 100 / 200 ns; the value steps are scaled so that every slope is a dyadic number
+        xs = [EPOCH_2026_NS + offset if offset else X0]
+        for d in dxs:
+            xs.append(xs[-1] + 100 * d)
+        ys = [Y0]
+        for c in codes:
+            ys.append(ys[-1] + 100 * STEPS[c])
+        coord = sc.epoch(unit='ns') + sc.array(dims=['time'], values=np.asarray(xs, dtype='int64'), unit='ns')
+        data = sc.array(dims=['time'], values=np.asarray(ys, dtype='float64'), unit='Hz')
+        return sc.DataArray(data, coords={'time': coord, 'idx': idx}), xs, ys, ATOL, 'Hz/ns'
+    xoff = offset if mode in ('int_coord', 'int_both') else 0
+    yoff = offset if mode in ('int_data', 'int_both') else 0
+    xs = [X0 + xoff]
+    for d in dxs:
+        xs.append(xs[-1] + d)
+    coord = sc.array(dims=['time'], values=np.asarray(xs, dtype='int64'), unit='s')
+    if mode == 'int_coord':
+        ys = [Y0]
+        for c in codes:
+            ys.append(ys[-1] + STEPS[c])
+        data = sc.array(dims=['time'], values=np.asarray(ys, dtype='float64'), unit='Hz')
+        atol = ATOL
+    else:
+        ys = [14 + yoff]
+        for c in codes:
+            ys.append(ys[-1] + INT_STEPS[c])
+        data = sc.array(dims=['time'], values=np.asarray(ys, dtype='int64'), unit='Hz')
+        atol = INT_ATOL
+    if [int(v) for v in coord.values] != xs or [series.frac(v) for v in data.values] != [series.frac(y) for y in ys]:
+        raise RuntimeError('harness: shifted series not representable')
+    return sc.DataArray(data, coords={'time': coord, 'idx': idx}), xs, ys, atol, 'Hz/s'
+
+
+def run_shift(case, rec):
+    mode, n, dxpos, head = case['mode'], case['n'], case['dxpos'], case['head']
+    dxs = [2 if i == dxpos else 1 for i in range(n - 1)]
+    rec.cls('shift_mode_' + mode)
+    for tail in itertools.product(range(6), repeat=n - 1 - len(head)):
+        codes = [*head, *tail]
+        base = {}
+        for offset in OFFSETS:
+            da, xs, ys, atol, atol_unit = shift_series(mode, n, dxs, codes, offset)
+            runs = series.maximal_runs(xs, ys, atol)  # exact: Python ints and dyadic floats as Fractions
+            rec.states += 1
+            for m in range(1, n + 1):
+                sub = {'steps': codes, 'min_n_points': m, 'offset': offset}
+                obs = {}
+                judge_find(rec, da, xs, ys, atol, m, runs, sub=sub, atol_unit=atol_unit, out=obs)
+                if offset == 0:
+                    base[m] = obs
+                    continue
+                ref = base[m]
+                rec.validated += 1
+                if obs['outcome'] != ref['outcome']:
+                    rec.cls('shift_guard_differs')  # only calls that return are constrained
+                elif obs['outcome'] == 'returned' and obs['members'] != ref['members']:
+                    rec.viol('find_plateaus', 'depends_on_offset', f'{mode}: plateaus {obs["members"]} with offset {offset}, {ref["members"]} without', **sub)
+                else:
+                    rec.cls('shift_invariant')
+            if abs(offset) > 2**53:
+                rec.cls('offset_above_2_53')
+            if offset < 0:
+                rec.cls('offset_negative')
+
+
+# ---------------------------------------------------------------------------------------
+# unit combinations and call histories
+
+TIME_FACTOR = {'s': Fraction(1), 'ms': Fraction(1, 10**3), 'us': Fraction(1, 10**6), 'ns': Fraction(1, 10**9)}
+FREQ_FACTOR = {'Hz': Fraction(1), 'kHz': Fraction(10**3)}
+ATOL_SI = Fraction(1, 8)  # Hz/s
+# (coordinate dtype, coordinate unit, data unit, tolerance unit as (frequency, time))
+UNIT_CONFIGS = (
+    ('float64', 's', 'Hz', ('Hz', 's')),  # tolerance already in the unit of the slope
+    ('datetime64', 'ns', 'Hz', ('Hz', 's')),
+    ('float64', 'ms', 'Hz', ('Hz', 's')),
+    ('float64', 'us', 'Hz', ('Hz', 's')),
+    ('int64', 'ms', 'Hz', ('Hz', 's')),
+    ('float64', 's', 'kHz', ('Hz', 's')),
+    ('datetime64', 'ms', 'Hz', ('Hz', 's')),
+    ('float64', 's', 'Hz', ('kHz', 's')),
+    ('float64', 'ms', 'Hz', ('kHz', 's')),
+    ('datetime64', 'us', 'Hz', ('Hz', 'ms')),
+    ('float64', 'ns', 'kHz', ('Hz', 'ms')),
+)
+# slopes in units of the tolerance (noise of a quarter of the tolerance, one jump of 8 tolerances) and coordinate steps
+UNIT_SLOPES = (Fraction(1, 4), Fraction(-1, 4), Fraction(1, 4), 0, 8, 0, Fraction(1, 4), Fraction(-1, 4), 0, Fraction(1, 4), Fraction(-1, 4))
+UNIT_DXS = (1, 2, 1, 1, 1, 2, 1, 1, 1, 2, 1)
+_UNIT_SIGNALS = {}
+
+
+def unit_signal(i):
+    """Signal of configuration i: (da, xs, ys, atol value, atol unit string, model runs).  Decisions have a margin of 4."""
+    if i in _UNIT_SIGNALS:
+        return _UNIT_SIGNALS[i]
+    cdtype, cunit, dunit, (af, at) = UNIT_CONFIGS[i]
+    xfac, yfac = TIME_FACTOR[cunit], FREQ_FACTOR[dunit]
+    afac = FREQ_FACTOR[af] / TIME_FACTOR[at]
+    atol_value = float(ATOL_SI / afac)
+    xs = [7]
+    for d in UNIT_DXS:
+        xs.append(xs[-1] + d)
+    ys = [14.0]
+    for sl, d in zip(UNIT_SLOPES, UNIT_DXS, strict=True):
+        ys.append(float(Fraction(ys[-1]) + sl * ATOL_SI * d * xfac / yfac))
+    n = len(xs)
+    if cdtype == 'float64':
+        coord = sc.array(dims=['time'], values=np.asarray(xs, dtype='float64'), unit=cunit)
+    elif cdtype == 'int64':
+        coord = sc.array(dims=['time'], values=np.asarray(xs, dtype='int64'), unit=cunit)
+    else:
+        coord = sc.epoch(unit=cunit) + sc.array(dims=['time'], values=np.asarray(xs, dtype='int64'), unit=cunit)
+    da = sc.DataArray(sc.array(dims=['time'], values=np.asarray(ys), unit=dunit), coords={'time': coord, 'idx': sc.arange('time', n, unit=None)})
+    # reference in SI, exact, on the float values actually passed
+    xs_si = [Fraction(x) * xfac for x in xs]
+    ys_si = [Fraction(y) * yfac for y in ys]
+    atol_si = Fraction(atol_value) * afac
+    for sl in series.slopes(xs_si, ys_si):
+        if not (abs(sl) * 2 < atol_si or abs(sl) > atol_si * 2):
+            raise RuntimeError('harness: unit signal too close to the tolerance')
+    runs = series.maximal_runs(xs_si, ys_si, atol_si)
+    _UNIT_SIGNALS[i] = (da, xs, ys, atol_value, f'{af}/{at}', runs)
+    return _UNIT_SIGNALS[i]
+
+
+def _unit_call(rec, i, sub):
+    da, xs, ys, atol_value, atol_unit, runs = unit_signal(i)
+    res = []
+    for m in (1, 3):
+        obs = {}
+        judge_find(rec, da, xs, ys, atol_value, m, runs, sub={**sub, 'config': i, 'min_n_points': m}, atol_unit=atol_unit, out=obs)
+        res.append(obs)
+    return res
+
+
+def run_history(case, rec):
+    seq = case['seq']
+    rec.cls('history_len_%d' % len(seq))
+    fresh = {}
+    for i in sorted(set(seq)):
+        modstate.reset(_filtering)
+        fresh[i] = _unit_call(rec, i, {'state': 'fresh'})
+        rec.cls('unit_config_%d' % i)
+    modstate.reset(_filtering)
+    for k, i in enumerate(seq):
+        got = _unit_call(rec, i, {'state': 'after', 'history': seq[:k]})
+        rec.states += 1
+        for g, f in zip(got, fresh[i], strict=True):
+            rec.validated += 1
+            if g['outcome'] != f['outcome']:
+                rec.cls('history_guard_differs')  # only calls that return are constrained
+            elif g != f:
+                rec.viol('find_plateaus', 'depends_on_call_history',
+                         f'configuration {UNIT_CONFIGS[i]} after {[UNIT_CONFIGS[j] for j in seq[:k]]}: plateaus {g["members"]}, in a fresh module state {f["members"]}'
+                         + ('' if g['members'] != f['members'] else ' (collapsed values differ)'), config=i, history=seq[:k])
+            else:
+                rec.cls('history_independent')
+    modstate.reset(_filtering)
+    if len(set(UNIT_CONFIGS[i][3] for i in seq)) < len(seq) and len({UNIT_CONFIGS[i][:3] for i in seq}) > 1:
+        rec.cls('history_same_atol_unit_other_slope_unit')
+
+
+# ---------------------------------------------------------------------------------------
 # in-phase filtering
 
 
@@ -477,6 +702,14 @@ def run_case(case, rec):
             _filtering.uuid = _REAL_UUID
     elif kind == 'long':
         run_long(case, rec)
+    elif kind == 'shift':
+        _filtering.uuid = _FixedUuid
+        try:
+            run_shift(case, rec)
+        finally:
+            _filtering.uuid = _REAL_UUID
+    elif kind == 'history':
+        run_history(case, rec)
     elif kind == 'inphase':
         run_inphase(case, rec)
     elif kind == 'inphase_int':
